@@ -209,6 +209,9 @@ type c19Scn struct {
 	started    chan struct{}
 	gone       chan struct{}
 	nextID     int
+	sentCtrlC  bool
+	sentSrvFin bool
+	sentHFin   bool
 	hang       string
 	skipped    int
 }
@@ -574,9 +577,15 @@ func (s *c19Scn) run(plan map[string]any, env *c19Env) {
 			}
 		case "srv":
 			k, _ := m["k"].(string)
+			if k == "fin" {
+				s.sentSrvFin = true
+			}
 			short, _ := m["short"].(bool)
 			s.feedSrv(k, "none", "-", short)
 		case "ctrlc", "text":
+			if m["a"] == "ctrlc" {
+				s.sentCtrlC = true
+			}
 			s.feedCli(m["a"].(string))
 		case "hout":
 			if !s.waitStarted(3 * time.Second) {
@@ -596,8 +605,17 @@ func (s *c19Scn) run(plan map[string]any, env *c19Env) {
 			if !s.pupSend("out " + hex.EncodeToString(b)) {
 				continue
 			}
-			// avoid two helper outputs coalescing into one Read of the bridge
-			dl := time.Now().Add(1500 * time.Millisecond)
+			// avoid two helper outputs coalescing into one Read of the bridge: wait until this one
+			// has been forwarded (long, when nothing known to the driver keeps the bridge from
+			// forwarding it; short otherwise: an ignored output is never seen)
+			wait := 4 * time.Second
+			if s.sentCtrlC || (s.sentSrvFin && s.sentHFin) {
+				wait = 300 * time.Millisecond
+			}
+			if k == "fin" {
+				s.sentHFin = true
+			}
+			dl := time.Now().Add(wait)
 			for time.Now().Before(dl) {
 				s.mu.Lock()
 				ok := s.houtTok[id]
